@@ -174,9 +174,9 @@ func VerifHarness_Modules() {
 func VerifHarness_ModuleChains() {
 	sc := errors.VerifParam("only", -1) // a pinned scenario (used with map-order exploration)
 	if sc < 0 {
-		sc = errors.VerifNdIntRange("scenario", 0, 5)
+		sc = errors.VerifNdIntRange("scenario", 0, 6)
 	}
-	errors.VerifTag("scenario", []string{"re-export", "inner-cycle", "diamond", "private-names", "same-named-function-elsewhere", "underscores-in-module-and-function-names"}[sc])
+	errors.VerifTag("scenario", []string{"re-export", "inner-cycle", "diamond", "private-names", "same-named-function-elsewhere", "underscores-in-module-and-function-names", "module-function-named-like-a-host-function"}[sc])
 	var modules map[string]string
 	var main, want string
 	wantErr := false
@@ -243,10 +243,21 @@ func VerifHarness_ModuleChains() {
 		main = "import get from a_b;\nimport b_get from a;\nfn main() {\n  println(get(), b_get());\n}\n"
 		modules = map[string]string{"a_b": ab, "a": a, "main": main}
 		want = "1 2\n"
+	case 6:
+		// another module defines a function named like a function of the host's scope: the entry module's call still reaches the host's
+		priv := errors.VerifNdIntRange("otherIsPub", 0, 1)
+		errors.VerifTag("case", fmt.Sprint("otherIsPub=", priv))
+		b := []string{"", "pub "}[priv] + "fn println(n: int) -> int { return n * 100; }\npub fn g() -> int { return 2; }\nfn main() { }\n"
+		main = "import g from b;\nfn main() {\n  println(7);\n  println(g());\n}\n"
+		modules = map[string]string{"b": b, "main": main}
+		want = "7\n2\n"
 	case 4:
 		// main imports f from a; b (imported for g only) defines its own, unrelated f
-		form := errors.VerifNdIntRange("importForm", 0, 2) // single import, first of a list, second of a list
-		bf := errors.VerifNdIntRange("otherIsPub", 0, 1)    // whether b's unrelated f is pub or private
+		form, bf := 0, 1
+		if errors.VerifParam("narrow", 0) == 0 { // (the map-order exploration pins these two)
+			form = errors.VerifNdIntRange("importForm", 0, 2) // single import, first of a list, second of a list
+			bf = errors.VerifNdIntRange("otherIsPub", 0, 1)    // whether b's unrelated f is pub or private
+		}
 		order := errors.VerifNdIntRange("otherImportedFirst", 0, 1) // whether the import from b stands before the imports from a
 		errors.VerifTag("case", fmt.Sprintf("form=%d otherIsPub=%d otherImportedFirst=%d", form, bf, order))
 		a := "pub fn e() -> int { return 5; }\npub fn f() -> int { return 1; }\nfn main() { }\n"
@@ -390,6 +401,96 @@ func VerifHarness_ImportGraphs() {
 	}
 	if text == 7 || text == 1 || text == 8 {
 		errors.VerifAssert("defective-module-rejected", an.hasError)
+	}
+	if errors.VerifParam("spans", 0) == 1 {
+		verifCheckReportedSpansIn(an, modules)
+	}
+}
+
+// ---- import kinds against what a code module offers ----
+
+// VerifHarness_ImportKinds: the entry imports one item of each kind (function, global, type, trigger, template) from a
+// code module that offers it publicly, privately, not at all, or only holds it as its own import from the host; the
+// item is then used the way its kind is used. Analyze must return; an item the module does not offer publicly is
+// diagnosed.
+func VerifHarness_ImportKinds() {
+	kind := errors.VerifNdIntRange("kind", 0, 4)   // fn, global, type, trigger, templ
+	offer := errors.VerifNdIntRange("offer", 0, 3) // pub, private, absent, held as the module's own import
+	form := errors.VerifNdIntRange("form", 0, 1)   // single import, braced list
+	use := errors.VerifNdIntRange("use", 0, 1)     // imported only / used
+	kinds := []string{"function", "global", "type", "trigger", "template"}
+	errors.VerifTag("case", fmt.Sprintf("%s offer=%s braced=%v used=%v", kinds[kind], []string{"pub", "private", "absent", "own-import"}[offer], form == 1, use == 1))
+	lib := "fn main() { }\n"
+	pub := []string{"pub ", "", "", ""}[offer]
+	switch {
+	case offer == 2:
+	case offer == 3:
+		lib = []string{
+			"import item from deep;\n",
+			"import item from deep;\n",
+			"import type item from deep;\n",
+			"import trigger minute from triggers;\n",
+			"import templ FooFeature from templates;\n",
+		}[kind] + lib
+	case kind == 0:
+		lib = pub + "fn item() -> int { 1 }\n" + lib
+	case kind == 1:
+		lib = pub + "let item = 1;\n" + lib
+	case kind == 2:
+		lib = pub + "type item = int;\n" + lib
+	default:
+		// a code module cannot declare triggers or templates of its own
+		errors.VerifReached("not-applicable")
+		return
+	}
+	deep := "pub fn item() -> int { 1 }\npub type item = int;\nfn main() { }\n"
+	if kind == 1 {
+		deep = "pub let item = 1;\nfn main() { }\n"
+	}
+	word := []string{"item", "item", "type item", "trigger minute", "templ FooFeature"}[kind]
+	imp := "import " + word + " from lib;\n"
+	if form == 1 {
+		imp = "import { " + word + " } from lib;\n"
+	}
+	body := "  println(1);\n"
+	extra := ""
+	if use == 1 {
+		switch kind {
+		case 0:
+			body = "  println(item());\n"
+		case 1:
+			body = "  println(item);\n"
+		case 2:
+			body = "  let v: item = 1;\n  println(v);\n"
+		case 3:
+			extra = "event fn cb(elapsed: int) { println(elapsed); }\n"
+			body = "  trigger cb at minute(1);\n"
+		case 4:
+			extra = "$Dev = { b: int };\nimpl FooFeature with { light } for $Dev {\n  fn dim(self: $Dev, percent: int) -> bool { true }\n}\n"
+		}
+	}
+	main := imp + extra + "fn main() {\n" + body + "}\n"
+	modules := map[string]string{"lib": lib, "deep": deep, "main": main}
+	verifDebug("program", main)
+	var an verifAnalysis
+	panicked, pmsg := errors.VerifPanics(func() { an = verifAnalyze(main, modules, nil, true) })
+	if panicked {
+		errors.VerifTag("panic", errors.VerifNorm(pmsg))
+		errors.VerifTag("site", errors.VerifPanicSite())
+	}
+	errors.VerifAssert("analysis-never-panics", !panicked)
+	if panicked {
+		return
+	}
+	errors.VerifReached("analyzed")
+	if an.hasError {
+		errors.VerifTag("diag", an.describe())
+	}
+	if offer == 0 {
+		errors.VerifAssert("public-item-imported", !an.hasError)
+	}
+	if offer == 1 || offer == 2 {
+		errors.VerifAssert("item-not-offered-is-diagnosed", an.hasError)
 	}
 	if errors.VerifParam("spans", 0) == 1 {
 		verifCheckReportedSpansIn(an, modules)
